@@ -1126,6 +1126,40 @@ fn main() {
             },
         );
     }
+    {
+        // limits that are finite while their difference ( or ( b - a ) / ( n - 1 ) * i ) is not: every point of [a, b] is representable
+        let m = f64::MAX;
+        let wide: [(f64, f64); 10] = [(-1e308, 1e308), (1e308, -1e308), (-m, m), (m, -m), (-1.5e308, 1e308), (0.0, m), (m, 0.0), (-m, 0.0), (-1e308, 1.7e308), (-m, 3.0)];
+        let wps = [1.0, 0.5, 2.0, 3.0];
+        ctx.lattice(
+            "linspace / powspace with finite limits whose difference overflows (or touches f64::MAX): n in 2..64 x 10 (a,b) pairs x p in {1,1/2,2,3}",
+            63 * 10 * 4,
+            |i| format!("{}", i),
+            |i, acc| {
+                let p = wps[(i % 4) as usize];
+                let (a, b) = wide[((i / 4) % 10) as usize];
+                let n = 2 + (i / 40) as usize;
+                if !(b - a).is_finite() {
+                    acc.nontriv("limits whose difference overflows");
+                } else {
+                    acc.nontriv("limit at f64::MAX");
+                }
+                judge(acc, i, || format!("wide interval n={} a={:e} b={:e} p={}", n, a, b, p), || {
+                    for (what, v) in [("linspace", Vector::linspace(a, b, n)), ("powspace", Vector::powspace(a, b, n, p))] {
+                        ensure!(v.size() == n, "{}: size", what);
+                        ensure!(v[0] == a, "{}({:e}, {:e}, {}): first element {:e} is not a", what, a, b, n, v[0]);
+                        ensure!(v.vec.iter().all(|x| x.is_finite()), "{}({:e}, {:e}, {}): non-finite element, {:?}...", what, a, b, n, &v.vec[..n.min(4)]);
+                        let scale = a.abs().max(b.abs());
+                        ensure!((v[n - 1] / 4.0 - b / 4.0).abs() <= 2.0 * f64::EPSILON * scale, "{}({:e}, {:e}, {}): last element {:e} is not b to within rounding", what, a, b, n, v[n - 1]);
+                        for k in 1..n {
+                            ensure!(if b >= a { v[k] >= v[k - 1] } else { v[k] <= v[k - 1] }, "{}: not monotone at {}", what, k);
+                        }
+                    }
+                    Ok(())
+                });
+            },
+        );
+    }
     // random(): size and range only (values are not under the harness' control)
     ctx.lattice(
         "random(n): length and range [0,1)",
